@@ -8,6 +8,9 @@
     NormalSent → TunnelSent (same side, same time) → TunnelRecv (other side, ≥ one delay later,
     and exactly one delay later when the bottleneck adds nothing) → NormalRecv (same time);
     none of these steps produces padding;
+  * `C14_S1_parsed_limit_never_exceeded`: the window-covering lemma — the limit `parse_trace`
+    derives (10 × the largest 100 ms count) is never exceeded by the 1 s window fed with the same
+    time-ordered times, also when shifted by the delay (all constants come from the translator);
   * `C14_S1_no_bottleneck_partial`: as long as the window count stays within the limit, the
     sampled network delay is exactly the configured delay and no aggregate delay is queued;
   * `C14_S2_no_machines_no_actions`, `C14_S2_init_quiet`, `C14_S2_trigger_update_inert`: with no
@@ -15,6 +18,7 @@
     sets a slot, a timer or blocking and never queues a TimerBegin.
 -/
 import MbVerif.Proofs.SimNoMachines
+import MbVerif.Proofs.SimWindow
 import MbVerif.Spec.C14
 
 namespace Mb.C14
@@ -53,6 +57,55 @@ theorem C14_S1_no_bottleneck_partial (b b' : Bottleneck) (now : Int) (c : Bool) 
   simp only [Nat.lt_irrefl, if_false, pure, Except.pure, gt_iff_lt] at h
   cases h
   cases c <;> simp
+
+/-- **S1 (window covering), complete at the level of the windows.**  For every time-ordered
+    trace: feed the bottleneck's window (length `SIM_BOTTLENECK_WINDOW_NS`) with the client's
+    send times, or with the client's receive times shifted by any constant (the server sends them
+    one network delay earlier): no count ever exceeds the limit `parse_trace` derived from the
+    same trace.  So as long as the tunnel-sent events of a side happen at that side's trace times
+    — which is what S2 maintains — `NetworkBottleneck::sample` adds nothing
+    (`C14_S1_no_bottleneck_partial`).  Missing for the composed identity: the induction that ties
+    the two together over the main loop (it needs the heap-ordering lemma, see the report). -/
+theorem C14_S1_parsed_limit_never_exceeded (trace : List TraceLine) (delay : Nat) (shift : Int)
+    (hs : Asc (sTimes trace)) (hr : Asc (rTimes trace)) :
+    ∃ lim, (parseTrace trace delay).maxPps = some lim ∧
+      (∀ c ∈ feedCounts ⟨Gen.SIM_BOTTLENECK_WINDOW_NS, []⟩ (sTimes trace), c ≤ lim) ∧
+      (∀ c ∈ feedCounts ⟨Gen.SIM_BOTTLENECK_WINDOW_NS, []⟩ ((rTimes trace).map (· + shift)), c ≤ lim) := by
+  obtain ⟨lim, hlim, h1, h2⟩ := parseTrace_limit trace delay
+  refine ⟨lim, hlim, ?_, ?_⟩
+  · intro c hc
+    -- the bottleneck window is `PPS_FACTOR` parse windows
+    have hw : Gen.SIM_BOTTLENECK_WINDOW_NS = (9 + 1) * Gen.SIM_PARSE_WINDOW_NS := by decide
+    rw [hw] at hc
+    -- bound every parse-window count by the largest one
+    have hmax : ∀ c' ∈ feedCounts ⟨Gen.SIM_PARSE_WINDOW_NS, []⟩ (sTimes trace), c' ≤ lim / Gen.SIM_PARSE_PPS_FACTOR := by
+      intro c' hc'
+      have := h1 c' hc'
+      have hf : Gen.SIM_PARSE_PPS_FACTOR = 10 := by decide
+      rw [hf] at this ⊢
+      omega
+    have := feedCounts_covering Gen.SIM_PARSE_WINDOW_NS (lim / Gen.SIM_PARSE_PPS_FACTOR) 9 (sTimes trace) hs
+      (by decide) hmax c hc
+    have hf : Gen.SIM_PARSE_PPS_FACTOR = 10 := by decide
+    rw [hf] at this
+    omega
+  · intro c hc
+    have hshift := feedCounts_shift Gen.SIM_BOTTLENECK_WINDOW_NS shift (rTimes trace) []
+    simp only [List.map_nil] at hshift
+    rw [hshift] at hc
+    have hw : Gen.SIM_BOTTLENECK_WINDOW_NS = (9 + 1) * Gen.SIM_PARSE_WINDOW_NS := by decide
+    rw [hw] at hc
+    have hmax : ∀ c' ∈ feedCounts ⟨Gen.SIM_PARSE_WINDOW_NS, []⟩ (rTimes trace), c' ≤ lim / Gen.SIM_PARSE_PPS_FACTOR := by
+      intro c' hc'
+      have := h2 c' hc'
+      have hf : Gen.SIM_PARSE_PPS_FACTOR = 10 := by decide
+      rw [hf] at this ⊢
+      omega
+    have := feedCounts_covering Gen.SIM_PARSE_WINDOW_NS (lim / Gen.SIM_PARSE_PPS_FACTOR) 9 (rTimes trace) hr
+      (by decide) hmax c hc
+    have hf : Gen.SIM_PARSE_PPS_FACTOR = 10 := by decide
+    rw [hf] at this
+    omega
 
 /-- **S2, second hop** (exact when the bottleneck adds nothing): a normal TunnelSent at the clock
     queues one normal TunnelRecv for the other side exactly one configured delay later. -/
